@@ -113,6 +113,8 @@ def work_item(args):
                     v2 = prove.discharge(ob2, timeout_ms)
                     if v2.status == 'undecided':        # budgets must not flip verdicts on a busy machine
                         v2 = prove.discharge(ob2, timeout_ms * 4)
+                    if v2.status == 'undecided' and time.time() - t0 < WORK_ITEM_BUDGET_S / 2:
+                        v2 = prove.discharge(ob2, timeout_ms * 12)
                     if v2.status == 'discharged':
                         rec = {'name': ob.name, 'status': 'known', 'solver': v2.solver,
                                'time_s': round(v1.time_s + v2.time_s, 4), 'kind': ob.kind, 'trace': tr, 'witnesses': []}
@@ -134,6 +136,9 @@ def work_item(args):
                     v = prove.discharge(ob, timeout_ms)
                     if v.status == 'undecided':
                         v = prove.discharge(ob, timeout_ms * 4)
+                    if v.status == 'undecided' and time.time() - t0 < WORK_ITEM_BUDGET_S / 2:
+                        # last resort on a busy machine: one long attempt while the work item still has time
+                        v = prove.discharge(ob, timeout_ms * 12)
                 rec = {'name': ob.name, 'status': v.status, 'solver': v.solver, 'time_s': round(v.time_s, 4),
                        'kind': ob.kind, 'trace': ''.join('T' if t else 'F' for t in pr.trace)}
                 if v.status == 'failed':
